@@ -149,4 +149,52 @@ theorem C12.aio_get_and_count (s : AState) (q : List Nat) (any : Bool) :
     (astepOp s (.delTags q any)).2 = .count (s.selectKeys q any).length := by
   refine ⟨rfl, ⟨sortKeys (s.selectKeys q any), rfl, fun k => (sortKeys_perm _).mem_iff⟩, rfl⟩
 
+/-! ### asyncio: `delete_jobs` removes exactly its selection - also when a coroutine calls it on its own job -/
+
+theorem logCancel_reg (s : AState) (k : Nat) (cur : Option Nat) : (s.logCancel k cur).reg = s.reg := by
+  unfold AState.logCancel
+  cases s.task? k with
+  | none => rfl
+  | some t =>
+      simp only []
+      cases t.phase <;> simp only []
+      split <;> rfl
+
+theorem cancel_reg (s : AState) (k : Nat) (cur : Option Nat) : (s.cancel k cur).reg = s.reg := rfl
+
+theorem deleteJob_reg (s : AState) (k : Nat) (cur : Option Nat) : (s.deleteJob k cur).1.reg = s.reg.erase k := by
+  unfold AState.deleteJob
+  by_cases hc : s.reg.contains k = true
+  · simp only [hc, if_true, cancel_reg, logCancel_reg]
+  · simp only [hc]
+    have : k ∉ s.reg := by simpa using hc
+    exact (List.erase_of_not_mem this).symm
+
+theorem deleteJobs_fold_reg (cur : Option Nat) (sel : List Nat) :
+    ∀ s : AState, (sel.foldl (fun st k => (st.deleteJob k cur).1) s).reg = sel.foldl List.erase s.reg := by
+  induction sel with
+  | nil => intro s; rfl
+  | cons y ys ih => intro s; simp only [List.foldl_cons]; rw [ih, deleteJob_reg]
+
+theorem mem_foldl_erase (sel : List Nat) : ∀ (l : List Nat), l.Nodup → ∀ x, x ∈ sel.foldl List.erase l ↔ x ∈ l ∧ x ∉ sel := by
+  induction sel with
+  | nil => intro l _ x; simp
+  | cons y ys ih =>
+      intro l hn x
+      simp only [List.foldl_cons]
+      rw [ih (l.erase y) (hn.erase y) x, hn.mem_erase_iff]
+      simp only [List.mem_cons, not_or]
+      constructor
+      · rintro ⟨⟨h1, h2⟩, h3⟩; exact ⟨h2, h1, h3⟩
+      · rintro ⟨h2, h1, h3⟩; exact ⟨⟨h1, h2⟩, h3⟩
+
+/-- **asyncio `delete_jobs` removes exactly that selection and nothing else** - whoever calls it:
+    the program that owns the loop (`cur = none`) or the coroutine of job `c` (`cur = some c`), whose
+    own job is removed like any other selected job -/
+theorem C12.aio_delete_exactly (s : AState) (q : List Nat) (any : Bool) (cur : Option Nat) (hn : s.reg.Nodup) (k : Nat) :
+    k ∈ (s.deleteJobs q any cur).1.reg ↔ (k ∈ s.reg ∧ k ∉ s.selectKeys q any) := by
+  unfold AState.deleteJobs
+  simp only []
+  rw [deleteJobs_fold_reg, mem_foldl_erase _ _ hn]
+
 end SV
